@@ -1013,10 +1013,11 @@ def readout_suite(ctx):
             continue
         rows = P.sum(axis=1)
         # the family: one operator per (j, k), a single entry sqrt(P[k, j]) at [j, k], on qs in the given order
-        fam = sorted((tuple(np.round(_embed(n, list(qs), np.sqrt(P[kk, j]) * np.outer(np.eye(d)[j], np.eye(d)[kk])).reshape(-1), 12))) for j in range(d) for kk in range(d))
-        got = sorted(tuple(np.round(np.asarray(c) * f, 12).reshape(-1)) for c, f in zip(ch.coefficients, full))
+        flat = lambda m: tuple(np.round(np.concatenate([np.asarray(m).real.reshape(-1), np.asarray(m).imag.reshape(-1)]), 12))
+        fam = sorted(flat(_embed(n, list(qs), np.sqrt(P[kk, j]) * np.outer(np.eye(d)[j], np.eye(d)[kk]))) for j in range(d) for kk in range(d))
+        got = sorted(flat(np.asarray(c) * f) for c, f in zip(ch.coefficients, full))
         G = sum(c * f.conj().T @ f for c, f in zip(ch.coefficients, full))
-        ok_family = len(full) == d * d and np.allclose(np.array(fam), np.array(got), atol=1e-12)
+        ok_family = len(full) == d * d and np.allclose(np.array(fam), np.array(got), atol=1e-11)
         ok_gram = np.allclose(G, _embed(n, list(qs), np.diag(rows)), atol=1e-12, rtol=0)
         if not (ok_family and ok_gram):
             bad += 1
@@ -1025,8 +1026,9 @@ def readout_suite(ctx):
                             f"P = np.array({P.tolist()})\nfull = [c * _embed(n, list(g.qubits), np.asarray(g.matrix(nb))) for c, g in zip(ch.coefficients, ch.gates)]\n"
                             "G = sum(f.conj().T @ f for f in full)\n"
                             f"assert np.allclose(G, _embed(n, {list(qs)!r}, np.diag(P.sum(axis=1))), atol=1e-12, rtol=0), np.abs(G - _embed(n, {list(qs)!r}, np.diag(P.sum(axis=1)))).max()\n"
-                            f"d = {d}\nfam = sorted(tuple(np.round(_embed(n, {list(qs)!r}, np.sqrt(P[k, j]) * np.outer(np.eye(d)[j], np.eye(d)[k])).reshape(-1), 12)) for j in range(d) for k in range(d))\n"
-                            "got = sorted(tuple(np.round(f, 12).reshape(-1)) for f in full)\nassert np.allclose(np.array(fam), np.array(got), atol=1e-12)"),
+                            f"d = {d}\nflat = lambda m: tuple(np.round(np.concatenate([np.asarray(m).real.reshape(-1), np.asarray(m).imag.reshape(-1)]), 12))\n"
+                            f"fam = sorted(flat(_embed(n, {list(qs)!r}, np.sqrt(P[k, j]) * np.outer(np.eye(d)[j], np.eye(d)[k]))) for j in range(d) for k in range(d))\n"
+                            "got = sorted(flat(f) for f in full)\nassert np.allclose(np.array(fam), np.array(got), atol=1e-11)"),
                      expected=str(np.round(rows, 12).tolist()), observed=str(np.round(np.diag(G).real, 12).tolist())[:600], broken=[name])
             continue
         # executed map: its own Kraus map, trace kept (row-stochastic within 4e-9)
@@ -1149,10 +1151,11 @@ def pauli_k_suite(ctx):
 
 
 def liouville_exec_suite(ctx, insts, users):
-    """T04_liouville_executes / T04_choi_executes on the real code: for a fresh channel object
+    """T04_liouville_executes / T04_choi_executes / T04_pauli_liouville_executes on the real code: for a fresh channel object
     `to_liouville(nqubits=n, order) @ vec(rho) == vec(execute(rho))` (row, column; system where the API
-    offers it) and the Choi action of `to_choi(nqubits=n, order)` (row, column, system) is the executed
-    state, for random complex NON-Hermitian rho; every class, user channels with complex operators,
+    offers it), the Choi action of `to_choi(nqubits=n, order)` (row, column, system) is the executed
+    state, and `to_pauli_liouville(nqubits=n)[a, b] == Tr(P_a^dagger execute(P_b))`, for random complex
+    NON-Hermitian rho; every class, user channels with complex operators,
     extra 3-qubit channels on non-ascending targets.  Exact tie of the theorem's left-hand side:
     the model's `liouvilleOf (choiTerms ch) . vec(rho)` (driver LEXEC) == the real execution on
     Gaussian-integer operators / dyadic probabilities, n <= 3."""
@@ -1215,6 +1218,27 @@ def liouville_exec_suite(ctx, insts, users):
                     ctx.fail(f"liouville-exec:{cls}{reg}:{view}", f"{expr} on {n} qubits: {call} does not describe the executed map ({'L @ vec(rho) != vec(executed state)' if view == 'to_liouville' else 'Choi action != executed state'})",
                              replay(expr, n, rho, SUPER_HELPERS + "\n" + body + "assert np.allclose(out, ref, atol=1e-9), np.abs(out - ref).max()"),
                              expected=str(np.round(ref, 6).tolist())[:800], observed=str(np.round(got, 6).tolist())[:800], broken=[name])
+        # T04_pauli_liouville_executes: entry (a, b) of to_pauli_liouville = <P_a, execute(P_b)>
+        if n <= 2 or rng.random() < 0.15:
+            ptm_body = (f"labs = list(itertools.product('IXYZ', repeat=n))\nPs = [_pauli_string_op(n, range(n), s) for s in labs]\n"
+                        "E = [_execute(mk(), P, n, nb) for P in Ps]\nref = np.array([[np.trace(Pa.conj().T @ Eb) for Eb in E] for Pa in Ps])\n"
+                        "out = np.asarray(ch.to_pauli_liouville(nqubits=n))\n")
+            try:
+                Ps = [_pauli_string_op(n, range(n), s_) for s_ in itertools.product("IXYZ", repeat=n)]
+                E = [_execute(mk(expr), P_, n, nb) for P_ in Ps]
+                ref = np.array([[np.trace(Pa.conj().T @ Eb) for Eb in E] for Pa in Ps])
+                got = np.asarray(mk(expr).to_pauli_liouville(nqubits=n))
+            except Exception as e:  # noqa: BLE001
+                bad += 1
+                ctx.fail(f"liouville-exec-raise:{cls}{reg}:to_pauli_liouville", f"{expr}: to_pauli_liouville(nqubits=n) / execution on a Pauli matrix raised {type(e).__name__}: {e}",
+                         replay(expr, n, rho, "import itertools\n" + SUPER_HELPERS + "\n" + ptm_body), broken=[name])
+                continue
+            ctx.stat("ptm_exec")
+            if got.shape != ref.shape or not np.allclose(got, ref, atol=TOL):
+                bad += 1
+                ctx.fail(f"liouville-exec:{cls}{reg}:to_pauli_liouville", f"{expr} on {n} qubits: to_pauli_liouville(nqubits=n) is not the Pauli transfer matrix <P_a, execute(P_b)> of the executed map",
+                         replay(expr, n, rho, "import itertools\n" + SUPER_HELPERS + "\n" + ptm_body + "assert np.allclose(out, ref, atol=1e-9), np.abs(out - ref).max()"),
+                         expected=str(np.round(ref, 6).tolist())[:800], observed=str(np.round(got, 6).tolist())[:800], broken=[name])
     ctx.ob(name, bad == 0, "search", f"{bad} failures" if bad else "")
 
     # exact: the model's left-hand side against the real execution
